@@ -123,6 +123,9 @@ deriving DecidableEq, Repr, Inhabited
 structure ConvTable where
   intoL : List (IntTy × IntoPath)
   fromL : List (IntTy × FromPath)
+  /-- `FromSteelVal for (A, B)` (conversions.rs) rejects a list that does not have exactly two elements
+  (`if l.len() != 2 { return Err(..) }`); `false`: it converts the first two and ignores the rest -/
+  pairExact : Bool := true
 deriving DecidableEq, Repr
 
 def ConvTable.into (tb : ConvTable) (t : IntTy) : Option IntoPath := tb.intoL.lookup t
@@ -336,13 +339,15 @@ def from_ (tb : ConvTable) : (t : Ty) → SVal → Except Err t.Host
     | _ => .error .conversion
   | .pair a b, v =>
     match v with
-    | .list [x, y] =>
-      match from_ tb a x with
-      | .error e => .error e
-      | .ok x' =>
-        match from_ tb b y with
+    | .list (x :: y :: rest) =>
+      if !rest.isEmpty && tb.pairExact then .error .conversion     -- the length check of the tuple impl
+      else
+        match from_ tb a x with
         | .error e => .error e
-        | .ok y' => .ok (x', y')
+        | .ok x' =>
+          match from_ tb b y with
+          | .error e => .error e
+          | .ok y' => .ok (x', y')
     | _ => .error .conversion
   | .map k v, w =>
     match w with
